@@ -1219,6 +1219,7 @@ let c23 = function
   | _ -> "FAIL malformed case"
 
 (* C29 *)
+
 let c29 = function
   | [L evs; sched; L log; alive] ->
     let cls = function A "TSyncErr" -> Diagnostics.TSyncErr | A "TBgErr" -> Diagnostics.TBgErr | A "TBgWarn" -> Diagnostics.TBgWarn | _ -> Diagnostics.TOk in
@@ -1231,7 +1232,25 @@ let c29 = function
     let real = Stdlib.List.map (function L [v; d] -> (n_of_int (int_of_sx v), dg d) | _ -> failwith "log") log in
     if int_of_sx alive = 0 then "FAIL key=server-died the server died during the history"
     else begin
-      match Diagnostics.run evs' sched' with
+      (* the interleaving the harness aimed at depends on timing; what counts is that the observed sequence of
+         publications is SOME run of the model LTS for this history: search the schedules (pruned by the log prefix) *)
+      let total = Stdlib.List.fold_left (fun a e -> a + (match e with
+          | Diagnostics.Open (_, Diagnostics.TSyncErr) | Diagnostics.Change (_, Diagnostics.TSyncErr) -> 1 | _ -> 3)) 0 evs' in
+      let rec is_prefix a b = (match a, b with [], _ -> true | x :: a', y :: b' -> x = y && is_prefix a' b' | _ :: _, [] -> false) in
+      let rec search pre (depth : int) =
+        (match Diagnostics.run evs' (Stdlib.List.rev pre) with
+         | None -> None
+         | Some l ->
+           if not (is_prefix l real) then None
+           else if depth = total then (if l = real then Some l else None)
+           else
+             let rec try_n n = if n > 8 then None else
+                 (match search (nat_of_int n :: pre) (depth + 1) with Some r -> Some r | None -> try_n (n + 1)) in
+             try_n 0) in
+      let found = (match Diagnostics.run evs' sched' with
+          | Some l when l = real -> Some l
+          | _ -> search [] 0) in
+      match (match found with Some l -> Some l | None -> Diagnostics.run evs' sched') with
       | None -> "FAIL key=schedule-not-enabled the harness schedule is not a run of the model"
       | Some mlog ->
         let expected = Diagnostics.expected evs' in
